@@ -30,6 +30,21 @@ CHECKS = {
    text="Exhaustive within bounds at store level: every history of 3 (quick) / 4 (thorough) retained publishes (set, replace, clear) over 5 prefix-related topics probed with 12 filters after each step on the origin and on a replica fed by the origin's broadcasts; every topic of the <=3-level domain x every filter; full and half-cleared stores x every filter; seeded random histories. Every answer must be exactly the most recent non-empty payload of every matching topic, once, flagged retained.",
    note="Trusts TLC and the Json module; in-order complete gossip delivery to the replica (faults are C08-C10).",
    design="5 C07, 4.9"),
+ "C08": dict(
+   technique="TLA+ spec Crdt model-checked with TLC (Convergence, Lww); TLC-generated write histories on skewed clocks executed on real replicas with every delivery order x batching x duplication; every replica listing validated by TLC against LWW over the updates it has seen (trace validation)",
+   text="Exhaustive within bounds: all histories of 3 (thorough 4) local writes on 2-3 nodes with clock skews 0/+2/-2 per map (sessions, subscriptions, retained), plus simulated histories with interleaved deliveries; the messages of each history are delivered to fresh real replicas in every permutation x every composition into batches, plus duplicated re-delivery; every probe must list per key the value of the greatest-timestamp update seen.",
+   note="Trusts TLC, the Json module and the verif-tagged clock hook. Assumes distinct updates carry distinct timestamps and session ids are never re-created.",
+   design="5 C08, 4.7"),
+ "C09": dict(
+   technique="TLA+ spec Crdt model-checked with TLC (BroadcastComplete); TLC-generated mutator sequences incl. bulk deletes executed on a real node; drained broadcasts decoded and validated by TLC against the entries touched, origin and receiver listings against LWW (trace validation)",
+   text="Exhaustive within bounds: every sequence of 3 (thorough 4) mutators (add, delete, DeletePeer, DeleteSession) over 3 keys on one origin, per map, plus simulated two-origin histories; after each mutator the queued broadcast must carry exactly the entries touched, the origin must list what those entries imply, and a fresh receiver of all broadcasts must list the same.",
+   note="Trusts TLC, the Json module, the clock hook; broadcasts are drained from the real TransmitLimitedQueue.",
+   design="5 C09, 4.7"),
+ "C10": dict(
+   technique="TLA+ spec Crdt model-checked with TLC (PushDominates); TLC-generated pairs of node histories with lost gossip and pushes executed via real LocalState/MergeRemoteState; listings after each push validated by TLC against LWW (trace validation)",
+   text="Exhaustive within bounds: every pair of node histories with 3 (thorough 4) local operations and all gossip lost, plus simulated histories with partial gossip and TLC-chosen pushes; each followed by a push into a fresh node, a one-way push and an exchange in both directions; every node's listing after every step must be LWW over its own updates plus the sender's.",
+   note="Trusts TLC, the Json module, the clock hook.",
+   design="5 C10, 4.7"),
 }
 
 def main():
